@@ -50,8 +50,12 @@ ASSUMPTIONS = [
     "row; such sizes are not generated (huge heights are paired with widths >= 2)",
     "re-encodability is judged with the declared size (serialize_problem_as_url); serialize_<p>(problem) wrappers that take the size "
     "from the problem itself are judged on boards with at least one row and column (an empty problem does not carry its width)",
-    "library combinators: re-encodability is claimed for well-formed terms (C15's wf: alternatives distinguishable by their first "
-    "character); crash-freedom for every dec_ok term",
+    "library combinators: re-encodability is judged for well-formed terms (C15's wf: alternatives distinguishable by their first "
+    "character) whose Tupl elements yield one item or none (tupl_single); crash-freedom for every dec_ok term",
+    "CPython refuses int()/str() on more than 4300 decimal digits (ValueError, an allowed outcome); py_int does not model that limit "
+    "and the streams contain no digit run of that length",
+    "when 25 calls have hit the 2 s alarm (only on a broken tree) the alarm drops to 0.05 s so that the run still ends; outcomes after "
+    "that point may be reported as Timeout although the call was merely slow",
 ]
 
 ERR = {1: "IndexError", 2: "KeyError", 3: "AssertionError", 4: "TypeError", 5: "ValueError",
